@@ -18,7 +18,7 @@ UNIT = dict(
             ("sub", "R13-future-newtype", r"AdaptiveFuture\s*\{\s*inner\s*:\s*", "", 1),
             ("sub", "R13-future-newtype", r"\)\s*,\s*\}(\s*\}\s*)$", r")\1", 1),
             ("R4",), ("R3",), ("R5",),
-            ("sub", "ledger-guard", r"InFlightGuard\(Arc::clone\(&self\.in_flight\)\)", "vx_guard(InFlightGuard(Arc::clone(&self.in_flight)), Tracked(tr))", 1),
+            ("sub", "ledger-guard", r"InFlightGuard\(((?:[^()]|\([^()]*\))*)\)", r"vx_guard(InFlightGuard(\1), Tracked(tr))", 1),
             ("sub", "ledger-drop", r"\bdrop\(in_flight_guard\)", "vx_drop_guard(in_flight_guard, Tracked(tr))", 1),
             ("addarg", ["fetch_add", "call", "record_success", "record_failure"], TR, 4),
             ("sub", "R6-limit", r"algorithm\.limit\(\)", "algorithm.limit(Tracked(tr))", 2),
